@@ -1,6 +1,8 @@
-(* Region/PropsRead.v — property C09, replica reads: GetTiKVRPCContext with ReplicaReadFollower / Mixed / PreferLeader and
-   the option leaderOnly (theorems only; model and proofs in ReadCtx.v). *)
-From Verif Require Import Base.Lex Region.Model Region.Ord Region.Converge Region.ProofsConvB Region.ProofsReach Region.ReadCtx.
+(* Region/PropsRead.v — property C09, less-used API variants. Replica reads: GetTiKVRPCContext with ReplicaReadFollower / Mixed / PreferLeader and
+   the option leaderOnly (model and proofs in ReadCtx.v); GroupKeysByRegion with the split-key filter (GroupFilter.v).
+   Theorems only. *)
+From Verif Require Import Base.Lex Region.Model Region.Ord Region.Converge Region.ProofsConvB Region.ProofsReach Region.ReadCtx Region.ProofsContains Region.GroupFilter.
+From Coq Require Import Sorting.Sorted.
 Open Scope N_scope.
 
 (* a returned context names the cached entry of the version asked for and one of ITS peers; nobody failed on that peer's
@@ -70,4 +72,47 @@ Example C09_read_ctx_follower_seed_wrap_example :
   epoch_fresh rd_c2 rd_r 3 = true /\
   fst (rpc_ctx_read rd_c2 (1, 1, 1) RkFollower 4294967295 false) = Some (rd_r, (1, 1), 0%nat) /\
   fst (rpc_ctx_read rd_c2 (1, 1, 1) RkFollower 4294967294 false) = Some (rd_r, (4, 4), 3%nat).
+Proof. vm_compute. repeat split. Qed.
+
+(* ---- GroupKeysByRegion with a filter ---- *)
+(* without a filter the function is the one C09_group_partition speaks about *)
+Theorem C09_group_filter_unfiltered : forall pd budget keys fuel t c lastl acc,
+  group_assign_f pd budget (fun _ _ => false) fuel t c keys lastl acc = group_assign pd budget fuel t c keys lastl acc.
+Proof. exact group_assign_f_none. Qed.
+Print Assumptions C09_group_filter_unfiltered.
+(* with tikv.equalRegionStartKey and STRICTLY INCREASING keys: no grouped key is the start key of its location, and every
+   grouped key is in its location *)
+Theorem C09_group_filter_sorted : forall pd budget keys fuel t c asg c' t',
+  pd_get_sound pd -> pd_prev_sound pd ->
+  StronglySorted (fun a b => lex_ltb a b = true) keys ->
+  group_assign_f pd budget eq_start fuel t c keys None [] = (Ok asg, c', t') ->
+  forall kr, In kr asg -> r_contains (snd kr) (fst kr) = true /\ fst kr <> r_start (snd kr).
+Proof.
+  intros pd budget keys fuel t c asg c' t' H1 H2 Hs H.
+  exact (group_filter_sorted pd budget H1 H2 keys fuel t c None [] asg c' t' Hs ltac:(intros l E; discriminate E) ltac:(intros kr []) H).
+Qed.
+Print Assumptions C09_group_filter_sorted.
+(* any filter, any keys: one decision per key in order (its location, which contains it; kept or not); a key is dropped only
+   when the filter said so about the location looked up for that very key; the result lists the kept keys in order, once each *)
+Theorem C09_group_filter_any : forall pd budget flt keys fuel t c asg c' t',
+  pd_get_sound pd -> pd_prev_sound pd ->
+  group_assign_f pd budget flt fuel t c keys None [] = (Ok asg, c', t') ->
+  exists ds : list (bytes * region * bool),
+    map (fun d => fst (fst d)) ds = keys /\
+    (forall k r b, In (k, r, b) ds -> r_contains r k = true /\ (b = false -> flt k (r_start r) = true)) /\
+    asg = map fst (filter (fun d => snd d) ds).
+Proof. intros pd budget flt keys fuel t c asg c' t' H1 H2 H. exact (group_filter_any pd budget H1 H2 flt keys fuel t c None [] asg c' t' H). Qed.
+Print Assumptions C09_group_filter_any.
+(* observation (no clause of C09; coordinator's ruling): unsorted or repeated keys — the filter is not consulted for a key served from the last location. Regions [-inf,m) and
+   [m,+inf) cached; keys [x; m] and [m; m] keep m although it is the start key of its region; [m; x] skips it.
+   (replayed on the code: `regioncache probe-groupfilter`) *)
+Definition gf_r1 := mkRegion 9 [] [109] 1 0 [(5, 1)] 0 false 0 false false false [0] None.
+Definition gf_r2 := mkRegion 10 [109] [] 1 0 [(11, 1)] 0 false 0 false false false [0] None.
+Definition gf_c := mkCache [gf_r1; gf_r2] [((9, 1, 0), []); ((10, 1, 0), [109])] [(9, (1, 0)); (10, (1, 0))] [] [].
+Definition gf_pd (t : nat) (q : pd_req) : pd_ans := PdOne None.
+Example C09_group_filter_unsorted_counterexample :
+  fst (fst (group_assign_f gf_pd 0 eq_start 3 0 gf_c [[109]; [120]] None [])) = Ok [([120], gf_r2)] /\
+  fst (fst (group_assign_f gf_pd 0 eq_start 3 0 gf_c [[120]; [109]] None [])) = Ok [([120], gf_r2); ([109], gf_r2)] /\
+  fst (fst (group_assign_f gf_pd 0 eq_start 3 0 gf_c [[109]; [109]] None [])) = Ok [([109], gf_r2)] /\
+  r_start gf_r2 = [109].
 Proof. vm_compute. repeat split. Qed.
